@@ -297,12 +297,19 @@ def c20(work, tier, seed):
         rng.shuffle(other)
         seen, keep = set(), []
         for x in other:
-            k = json.dumps({a: b for a, b in x[0].items() if a != "size"}, sort_keys=True)
+            k = json.dumps({a: b for a, b in x[0].items() if a not in ("size", "after")}, sort_keys=True)
             if k not in seen:
                 seen.add(k)
                 keep.append(x)
         seenv, keepv = set(), []
         rng.shuffle(valid)
+        # ... and, right after a request for another realm / an unknown realm on the same proxy, every behaviour pair
+        for x in valid:
+            if x[0]["after"] != "nothing" and x[0]["size"] == "s1400":
+                k = json.dumps([x[0]["after"], x[0]["realm"], sorted(x[1].values())], sort_keys=True)
+                if k not in seenv:
+                    seenv.add(k)
+                    keepv.append(x)
         for x in valid:
             k = json.dumps([x[0]["size"], x[1]], sort_keys=True)
             if k not in seenv:
@@ -320,7 +327,7 @@ def c20(work, tier, seed):
         if size is None:
             size = [1, 100, 1400, 5000][h % 4]
         scripts.append({"id": "q%05d" % i, "method": ["GET", "PUT", "DELETE"][h % 3] if req["method"] == "GET" else "POST", "len": req["len"], "body": req["body"], "realm": req["realm"],
-                        "size": size, "sizecls": req["size"], "kdcs": kd, "target": "handler"})
+                        "size": size, "sizecls": req["size"], "kdcs": kd, "target": "handler", "after": req.get("after", "nothing")})
     # several requests at the same time on one proxy instance (every KDC delays its reply so that they overlap): what a
     # request is answered does not depend on the others
     base = [x for x in scripts if x["method"] == "POST" and x["len"] == "ok" and x["body"] == "valid" and x["realm"] != "unknown" and x["sizecls"] in ("s4", "s1400", "s60000")]
